@@ -7,18 +7,20 @@ PROP = {
     "rule": ("harness built with the Go race detector. Unit 1: rapid-generated workloads {fixed-window or concurrency quota with max 1-12} x 2-16 goroutines x 1-12 transactions each "
              "(half through a Limiter flow, half through a branching Filter/GenerateResponse flow, request then response), released together at a frozen virtual instant, optionally with a "
              "metrics reader and a concurrent re-load of the same configuration. Unit 2: 2-8 goroutines doing policy lookups for fresh transaction ids while policies are swapped and the "
-             "vacuum's timers are fired. Oracles: (a) every race report whose innermost lunar frames (normalised: no line numbers, closure numbers or type arguments) are not a listed known "
+             "vacuum's timers are fired. Unit 3: 2-8 goroutines sending transactions through routing.Handler of a real HandlingDataManager while the flows are re-loaded through POST /load_flows (every "
+             "transaction must be answered by some version of the flow). Oracles: (a) every race report whose innermost lunar frames (normalised: no line numbers, closure numbers or type arguments) are not a listed known "
              "finding is a violation; (b) serialisability: a fixed-window quota admits exactly min(requests, max); a concurrency quota is free again after all transactions ended; every "
              "transaction of the branching flow gets exactly the actions its own headers determine; lookups never fail. Non-trivial: >=2 transactions were in flight at the same time (measured). "
              "distinct = canonical JSON of the workload parameters"),
     "assumptions": [
         "the race detector has no false positives but only sees interleavings that happen: a silent run is not proof of absence",
         "a race is identified by the unordered pair of innermost lunar functions of the two accesses",
-        "Queue, Retry and cache processors, the HAR collector and the HandlingDataManager swap are not part of the workloads yet",
+        "Queue, Retry and cache processors and the HAR collector are not part of the workloads",
     ],
     "units": [
         dict({"pkg": "c18", "test": "TestWorkloads", "quick": 60, "thorough": 600, "shards": 16}, **_RACE),
         dict({"pkg": "c18", "test": "TestPolicyAccessorWorkload", "quick": 60, "thorough": 600, "shards": 16}, **_RACE),
+        dict({"pkg": "c18", "test": "TestManagerReloadWorkload", "quick": 25, "thorough": 300, "shards": 1}, **_RACE),
     ],
     "technique": "generated concurrent workloads under the Go race detector (happens-before oracle, reports reduced to normalised signatures) plus serialisability checks of the verdicts",
     "level_text": ("generated concurrent workloads are executed against the real engine in a race-detector build; any unsynchronised access to engine state that the schedule exhibits is reported "
